@@ -189,6 +189,11 @@ def run_shard(args):
     except BaseException as e:  # noqa
         out['harness_error'] = ''.join(
             traceback.format_exception(type(e), e, e.__traceback__))[-6000:]
+    try:
+        from . import solverio
+        solverio.cleanup()
+    except Exception:
+        pass
     out.update(evaluations=st.evaluations, nontrivial=st.nontrivial,
                labels=dict(st.labels), counters=dict(st.counters),
                samples_nt=st.samples_nt, samples_any=st.samples_any,
